@@ -68,7 +68,7 @@ PROPS = {
     ),
     "C04": mpt(
         level="fault_enumeration",
-        quick=dict(runs=16000, budget_s=90), thorough=dict(runs=1200000, budget_s=1500),
+        quick=dict(runs=40000, budget_s=90), thorough=dict(runs=1200000, budget_s=1500),
         rule="multi-round histories (1-5 rounds; each round a block state over LevelNodeDB(memory, prior) at version=round with 0-4 transaction children of 1-5 inserts/deletes each, merged or discarded, plus direct block updates; save lag 0-2 rounds; optional rebase onto the persistent store after saving), each round saved with RecordDeadNodes + SaveChanges(includeDeletes=false) to the real PNodeDB on the simulated RocksDB. After every save a fresh trie on the persistent store ALONE must read every saved round completely with its original content. Crash enumeration, exhaustive per history: for EVERY prefix of the save's write stream (process crash) plus two sampled power-loss prefixes inside earlier rounds' streams (not before the last Flush), the surviving disk is cloned, reopened with NewPNodeDB, every round whose save lies inside the prefix must read completely, and the interrupted round(s) are re-executed from the script and re-saved: same root, complete content. evaluations = histories; crash_points = crash states explored; non-trivial = history with >= 2 mutations and >= 1 crash point",
         state_measure="digest of the saved content per round",
         assumptions=[ROCKS_ASSUMPTION,
@@ -173,7 +173,7 @@ PROPS = {
 TREE_EXTRA = ("Store kinds: memory, level(mem,mem), level(mem,persistent), persistent, and level(persistent,persistent) = what a rebase "
               "after a save produces. Path lengths up to 256 hex characters. 1 in 700 runs stores values 0-700 bytes (biased to the last dozen) "
               "below util.MPTMaxAllowableNodeSize, the largest value Insert accepts.")
-ROUND_EXTRA = ("1 in 120 runs has one round that inserts 200-500 keys (more nodes than the 256-node batch size); 1 in 15 runs uses sparse round "
+ROUND_EXTRA = ("C04 only: 1 in 10 transactions is followed by a mid-round SaveChanges of the block's trie; the root saved then must still be complete on the store after the round's final save. 1 in 120 runs has one round that inserts 200-500 keys (more nodes than the 256-node batch size); 1 in 15 runs uses sparse round "
                "numbers whose low bits repeat (jumps of 2^16 / 2^32 / 2^48); 1 in 10 rounds contains a 'sync': the complete state of the previous "
                "round is merged into the block's trie from a separate store (MergeDB back to the previous root).")
 CACHE_EXTRA = ("Value kinds: mutable byte values, trie nodes (C07), and the package's immutable statecache.String (1 in 5 runs); 1 in 8 runs draws "
